@@ -15,7 +15,7 @@ RescaleOk(c) == c.ba \in Alloc(c.bs) /\ (Tier = "thorough" \/ (c.slope4 = 4 /\ c
 
 (* window: centre in quarters relative to mid-range, width with w-1 (linear) *)
 (* or w (exact) a power of two, plus the degenerate widths 0 and 1           *)
-Cqs == IF Tier = "thorough" THEN {0, 2, -3, 5} ELSE {-3}
+Cqs == IF Tier = "thorough" THEN {0, 2, -3, 5} ELSE {-3, 2}
 Wks == IF Tier = "thorough" THEN {-2, -1, 0, 1, 2, 3, 6, 10, 12} ELSE {-2, -1, 0, 3, 10}
 Width(fn, wk) == IF wk = -2 THEN 0 ELSE IF wk = -1 THEN 1 ELSE IF fn = "LINEAR" THEN Pow2(wk) + 1 ELSE Pow2(wk)
 MidX(bs, sg) == IF sg THEN 0 ELSE Pow2(bs - 1)
@@ -26,8 +26,20 @@ WinCases == {[kind |-> "win", fn |-> fn, ba |-> ba, bs |-> bs, signed |-> sg, sl
 WinOk(c) == c.ba \in Alloc(c.bs) /\ (Tier = "thorough" \/ c.bs \in {1, 4, 7, 8, 12, 16})
                                  /\ (Tier = "thorough" \/ c.slope4 = 4 \/ c.bs = 12)
 
+(* window edges: LINEAR windows of width 1 (and widths below 1, clamped to 1) and a   *)
+(* few wider ones, with fractional rescales (slope 1/2, 1, 2; intercept 0, +-1/2) and *)
+(* the centre placed so that the rescaled value of the stored value MidX + d lies     *)
+(* exactly on the lower edge c - 0.5 - (w-1)/2 (d = 0) resp. on the upper edge        *)
+(* c - 0.5 + (w-1)/2; the comparisons of C.11.2.1.2 decide these points exactly.      *)
+EdgeBs == IF Tier = "thorough" THEN BitsStored ELSE BitsStored \cap {4, 8, 12}
+EdgeCases == {[kind |-> "win", fn |-> "LINEAR", ba |-> ba, bs |-> bs, signed |-> sg, slope4 |-> s, icpt4 |-> i,
+               c4 |-> Rescale4(MidX(bs, sg), s, i) + 2 + 2 * (Width("LINEAR", wk) - 1) * (IF Width("LINEAR", wk) >= 1 THEN 1 ELSE 0),
+               w |-> Width("LINEAR", wk), ymax |-> YMax(bs)] :
+               bs \in EdgeBs, ba \in {8, 16}, sg \in BOOLEAN, s \in {2, 4, 8}, i \in {0, 2, -2}, wk \in {-2, -1, 1}}
+EdgeOk(c) == c.ba \in Alloc(c.bs)
+
 VARIABLE c
-Init == c \in {x \in RescaleCases : RescaleOk(x)} \cup {x \in WinCases : WinOk(x)}
+Init == c \in {x \in RescaleCases : RescaleOk(x)} \cup {x \in WinCases : WinOk(x)} \cup {x \in EdgeCases : EdgeOk(x)}
 Next == UNCHANGED c
 Spec == Init /\ [][Next]_c
 Emit == PrintT(<<"CASE", ToJson(c)>>)
